@@ -475,7 +475,48 @@ def go_list(path, goos, goarch, tag, cgo_enabled):
 
 
 # ---------------------------------------------------------------- end-to-end sample
-def e2e_dir(rng, nfiles, ensure):
+def e2e_file(name, expr, ident):
+    """a valid package-main file defining one target <ident> that prints its working directory"""
+    form = "none" if expr is None else "gobuild"
+    text = file_text(form, expr, None, "main", ident, None).replace(
+        "func %s() {}" % ident, 'func %s() { wd, _ := os.Getwd(); fmt.Println("WD", wd) }' % ident).replace(
+        "package main\n", 'package main\n\nimport (\n\t"fmt"\n\t"os"\n)\n', 1)
+    return {"name": name, "form": form, "expr": expr, "pkg": "main", "broken": None, "ident": ident, "text": text}
+
+
+def layout_matrix(rng, host):
+    """the layouts C10_dir_choice distinguishes: {magefiles/ exists} x {tagged files in "."} x {untagged .go files in "."
+    declaring exported functions} x {untagged / excluded-by-constraint files inside magefiles/}: (top, sub or None)"""
+    M = ("tag", "mage")
+    other_os = "plan9" if host[0] != "plan9" else "windows"
+    out = []
+    for has_sub in (False, True):
+        for tagged in (False, True):
+            for untagged in (False, True):
+                for subextra in ((False, True) if has_sub else (False,)):
+                    top = []
+                    if tagged:
+                        top.append(e2e_file("magefile.go", rng.choice([M, ("and", M, ("not", ("tag", other_os)))]), "Build"))
+                        if rng.random() < 0.5:
+                            top.append(e2e_file("tasks.go", ("and", M, ("tag", host[0])), "Tasks"))
+                    if untagged:
+                        top.append(e2e_file("lib.go", None, "Leaked"))
+                        top.append(e2e_file("util.go", rng.choice([("not", ("tag", other_os)), ("or", ("tag", host[1]), ("tag", "foo")), ("not", M)]), "Util"))
+                    sub = None
+                    if has_sub:
+                        sub = [e2e_file("targets.go", rng.choice([M, ("and", M, ("tag", host[1]))]), "Sub")]
+                        if subextra:
+                            sub.append(e2e_file("plain.go", rng.choice([None, ("not", ("tag", other_os))]), "Plain"))
+                            sub.append(e2e_file("other_os.go", rng.choice([("tag", other_os), ("and", M, ("tag", other_os))]), "Otheros"))
+                            sub.append(e2e_file("ign.go", ("and", M, ("tag", "ignore")), "Ign"))
+                            sub.append(e2e_file("x_%s.go" % other_os, M, "Suffix"))
+                    for l in (top, sub or []):
+                        l.sort(key=lambda f: f["name"].encode())
+                    out.append(({"id": -1, "files": top, "mixed": False}, None if sub is None else {"id": -1, "files": sub, "mixed": False}))
+    return out
+
+
+def e2e_dir(rng, nfiles, ensure, prefix="T"):
     """a directory whose files are all valid, package main, each defining one target T<i>;
     ensure(f) says whether at least one file must satisfy something (callers retry)"""
     for _ in range(200):
@@ -492,10 +533,7 @@ def e2e_dir(rng, nfiles, ensure):
             else:
                 form = "gobuild"
                 expr = gen_top_expr(rng) if r < 0.8 else ("tag", "mage")
-            ident = "T%d" % i
-            files.append({"name": nm, "form": form, "expr": expr, "pkg": "main", "broken": None, "ident": ident,
-                          "text": file_text(form, expr, None, "main", ident, None).replace("func %s() {}" % ident, 'func %s() { wd, _ := os.Getwd(); fmt.Println("WD", wd) }' % ident).replace(
-                              "package main\n", 'package main\n\nimport (\n\t"fmt"\n\t"os"\n)\n', 1)})
+            files.append(e2e_file(nm, expr, "%s%d" % (prefix, i)))
         files.sort(key=lambda f: f["name"].encode())
         d = {"id": -1, "files": files, "mixed": False}
         if ensure(d):
@@ -520,12 +558,14 @@ def run_e2e(ctx, host, nrelease, release, tooltags):
         jobs.append({"kind": "plain", "top": d, "sub": None, "env": envs[i % len(envs)], "plat": host, "flags": ("", "")})
     for i in range(n_sub):
         with_top = (i % 3 == 2)
-        sub = e2e_dir(rng, rng.choice([2, 3, 4]), lambda d: len(exp(d, host, True)) >= 1)
+        sub = e2e_dir(rng, rng.choice([2, 3, 4]), lambda d: len(exp(d, host, True)) >= 1, prefix="S")
         if with_top:
             top = e2e_dir(rng, rng.choice([2, 3]), lambda d: len(exp(d, host, False)) >= 1)
         else:
             top = e2e_dir(rng, rng.choice([1, 2, 3]), lambda d: len(exp(d, host, False)) == 0)
         jobs.append({"kind": "subdir", "top": top, "sub": sub, "env": envs[(i + 1) % len(envs)], "plat": host, "flags": ("", "")})
+    for i, (top, sub) in enumerate(layout_matrix(rng, host)):
+        jobs.append({"kind": "layout", "top": top, "sub": sub, "env": envs[i % len(envs)], "plat": host, "flags": ("", "")})
     cross = [("windows", "amd64"), ("darwin", "arm64"), ("linux", "arm64"), ("windows", "")]
     for i in range(n_cross):
         goos, goarch = cross[i % len(cross)]
@@ -589,7 +629,11 @@ def run_e2e(ctx, host, nrelease, release, tooltags):
         ident = {f["name"]: f["ident"].lower() for f in d["files"]}
         bad = None
         got_files = None
-        if res["rc"] != 0:
+        if not want and j["kind"] != "compile":
+            # neither the directory nor a magefiles subdirectory provides a magefile: mage must say so
+            if res["rc"] == 0 or "No .go files marked with the mage build tag" not in res["err"]:
+                bad = "no file of the project requires the mage tag, but `mage -l` exited %d listing %s: %s" % (res["rc"], res.get("targets"), res["err"][-300:])
+        elif res["rc"] != 0:
             bad = "mage failed (rc=%d): %s" % (res["rc"], res["err"][-400:])
         elif j["kind"] == "compile":
             magic = {"windows": "4d5a", "linux": "7f454c46", "darwin": "cffaedfe"}[plat[0]]
